@@ -14,7 +14,7 @@
 From VK Require Import Base Core STV Rules Laws.
 From VK.Spec Require Import ScoreSpec LawSpec.
 From VK.Proofs Require Import Lib_sets Dist C17_laws.
-From Coq Require Import Permutation.
+From Coq Require Import Permutation Lia.
 
 (* ================================================================== *)
 (** * D. Finite rational distributions (any outcome type) *)
@@ -197,10 +197,7 @@ Proof. exact (rd_step_law cand ceqb ceqb_spec). Qed.
 (* with non-negative weights all the entries of the law are non-negative: 0 <= P(ev) <= mass *)
 Theorem c17_rd_step_nonneg : forall (p : profile) (ev : cand -> bool), nonneg_weights p ->
   0 <= prob ev (law_rd_winner p) /\ prob ev (law_rd_winner p) <= mass (law_rd_winner p).
-Proof.
-  intros p ev H. pose proof (rd_step_nonneg cand p H) as Hn.
-  split; [apply prob_nonneg|apply prob_le_mass]; exact Hn.
-Qed.
+Proof. exact (rd_step_prob_range cand). Qed.
 
 (* the closed form is c's share of the current first-place tally (ties split evenly), as computed
    by first_place_votes *)
@@ -250,11 +247,7 @@ Theorem c17_brd_single : forall (p : profile) (d : scores) c,
   mass (law_brd_winner p d) == 1 /\ prob (ceqb c) (law_brd_winner p d) == 1 /\
   forall (prev : estate) (st : mstate) u rest, scr st = DUnit u :: rest ->
     brd_step p prev st = elect_one c [] p prev (mkM rest (CUniform :: lg st)).
-Proof.
-  intros p d c Hc. destruct (brd_single_law cand ceqb ceqb_spec p d c Hc) as (_ & Hm & Hp).
-  split; [exact Hm|]. split; [exact Hp|]. intros prev st u rest Hscr.
-  exact (brd_single_script cand ceqb p prev st u rest c Hscr Hc).
-Qed.
+Proof. exact (brd_single cand ceqb ceqb_spec). Qed.
 
 (* every successful step consumes a DUnit first and logs random.uniform as its first call *)
 Theorem c17_brd_threshold_is_call : forall (p : profile) (prev : estate) (st st' : mstate) np e,
@@ -387,16 +380,22 @@ Ltac fg_ok := eexists; eexists; split; [reflexivity|split; [discriminate|nodup]]
 Definition p3 : profile positive :=
   mkProfile [B [[1;2];[3]] (3#2); B [[2];[1];[3]] 2; B [[3];[1;2]] (1#2)] [1;2;3].
 
+Ltac groups_ok := repeat (constructor; try discriminate).
+Ltac wf_rk := split; [discriminate|split; [groups_ok|split; [nodup|intros x Hx; cbn in *; intuition]]].
+Ltac ballot_ok := split; [reflexivity|split; [reflexivity|split; [nodup|split; [groups_ok|cbn; lia]]]].
+
 Example c17_ex_rd_domain : rd_domain positive p3 /\ nonneg_weights positive p3 /\
   wf_profile positive p3 /\ rd_seats_ok positive 3 p3.
 Proof.
   split; [|split; [|split]].
-  - split; [repeat constructor; fg_ok|reflexivity].
-  - repeat constructor; discriminate.
-  - split; [nodup|].
-    repeat constructor; try discriminate; try nodup; cbn; intros x Hx; cbn; intuition.
+  - split; [|reflexivity]. constructor; [fg_ok|]. constructor; [fg_ok|]. constructor; [fg_ok|].
+    constructor.
+  - constructor; [discriminate|]. constructor; [discriminate|]. constructor; [discriminate|].
+    constructor.
+  - split; [nodup|]. constructor; [wf_rk|]. constructor; [wf_rk|]. constructor; [wf_rk|].
+    constructor.
   - intros _. split; [nodup|]. split; [discriminate|].
-    repeat constructor; try discriminate; try nodup; cbn; lia.
+    constructor; [ballot_ok|]. constructor; [ballot_ok|]. constructor; [ballot_ok|]. constructor.
 Qed.
 
 (* the law computed numerically agrees with the closed form: 3/16, 11/16, 1/8 *)
@@ -407,8 +406,20 @@ Example c17_ex_rd_law :
   probc 3 (law_rd_winner positive p3) == 1 # 8 /\
   rd_closed_form positive Pos.eqb p3 1 == 3 # 16 /\
   rd_closed_form positive Pos.eqb p3 2 == 11 # 16 /\
-  rd_closed_form positive Pos.eqb p3 3 == 1 # 8 /\
-  first_place_votes positive Pos.eqb p3 = inl [(1, 3#4); (2, 11#4); (3, 1#2)].
+  rd_closed_form positive Pos.eqb p3 3 == 1 # 8.
+Proof. repeat split; vm_compute; reflexivity. Qed.
+
+(* ... and is the share of the first-place tally computed by first_place_votes (total weight 4) *)
+Definition fpv3 : scores positive := Eval vm_compute in
+  match first_place_votes positive Pos.eqb p3 with inl d => d | inr _ => [] end.
+
+Example c17_ex_rd_fpv :
+  first_place_votes positive Pos.eqb p3 = inl fpv3 /\ map fst fpv3 = [1;2;3] /\
+  lookup0 positive Pos.eqb 1 fpv3 == 3 # 4 /\
+  lookup0 positive Pos.eqb 2 fpv3 == 11 # 4 /\
+  lookup0 positive Pos.eqb 3 fpv3 == 1 # 2 /\
+  total_wt positive (ballots p3) == 4 /\
+  rd_closed_form positive Pos.eqb p3 2 == lookup0 positive Pos.eqb 2 fpv3 / 4.
 Proof. repeat split; vm_compute; reflexivity. Qed.
 
 (* a script electing 2 through the tied ballot: the calls logged (newest first) are
@@ -423,7 +434,7 @@ Example c17_ex_rd_script :
   let run := rd_step positive Pos.eqb p3 prev0 (mkM [DRank [[1;2];[3]]; DPerm [2;1]] []) in
   elected_of run = [[2]] /\
   log_of run = [CSample [1;2]; CChoices (choices_pop positive p3)] /\
-  choices_pop positive p3 = [([[1;2];[3]], 3#2); ([[2];[1];[3]], 2); ([[3];[1;2]], 1#2)].
+  choices_pop positive p3 = [([[1;2];[3]], 3#2); ([[2];[1];[3]], 2#1); ([[3];[1;2]], 1#2)].
 Proof. repeat split; vm_compute; reflexivity. Qed.
 
 (* (b) uniform tiebreak on three candidates: orders, positions, seats, elimination *)
@@ -444,7 +455,7 @@ Definition d3 : scores positive := [(1, 3#4); (2, 11#4); (3, 1#2)].
 
 Example c17_ex_brd_law :
   (2 <= length (cands p3))%nat /\ NoDup (map fst d3) /\
-  0 < qsum (map (fun q => snd q * snd q) d3) /\
+  (0 < qsum (map (fun q => snd q * snd q) d3))%Q /\
   mass (law_brd_winner positive p3 d3) == 1 /\
   squares_closed_form positive Pos.eqb d3 2 == 121 # 134 /\
   probc 2 (law_brd_winner positive p3 d3) == (1#2) * (121 # 134) + (1#2) * (11 # 16) /\
@@ -462,7 +473,7 @@ Example c17_ex_brd_script :
   let run_sq := brd_step positive Pos.eqb p3 prev0 (mkM [DUnit (1#4); DCand 3] []) in
   let run_rd := brd_step positive Pos.eqb p3 prev0 (mkM [DUnit (3#4); DRank [[2];[1];[3]]] []) in
   elected_of run_sq = [[3]] /\
-  log_of run_sq = [CNpChoice (squares positive d3 4); CUniform] /\
+  log_of run_sq = [CNpChoice (squares positive d3 (total_wt positive (ballots p3))); CUniform] /\
   elected_of run_rd = [[2]] /\
   log_of run_rd = [CChoices (choices_pop positive p3); CUniform].
 Proof. repeat split; vm_compute; reflexivity. Qed.
